@@ -91,7 +91,7 @@ func (o *c18Oracle) AfterStep(e *core.Engine, idx int, st *core.Step, stepErr er
 }
 
 func (o *c18Oracle) Finish(e *core.Engine) []core.Violation { return nil }
-func (o *c18Oracle) NonTrivial(e *core.Engine) bool          { return o.hostile >= 5 && o.probes >= 5 }
+func (o *c18Oracle) NonTrivial(e *core.Engine) bool         { return o.hostile >= 5 && o.probes >= 5 }
 
 func init() {
 	Register(&ClusterProp{
